@@ -1,6 +1,7 @@
 import XmppModel.Model.Close
 import XmppModel.Model.CloseProbe
 import XmppModel.Lemmas.Close
+import XmppModel.Lemmas.CloseEnv
 import XmppModel.Generated.C10
 /-!
 # C10 — closing is idempotent, final and observable
@@ -1008,5 +1009,154 @@ theorem C10_transmit_whole_deadline_breaks_serve (t : Nat) :
     ∃ c ∈ (run .both init [.closeDeadline t, .transmit true]).log, c.1 = .both ∧ movesRead c.1 = true := by
   refine ⟨rfl, rfl, (.both, .past), ?_, rfl, rfl⟩
   simp [run, step, watcher, setDl, init]
+
+
+/-! ### Round D: the session in its environment
+
+Sessions negotiated with `TeeIn`/`TeeOut` (every write goes through `io.MultiWriter(conn, tee)`),
+transports that honour write deadlines, and token readers held across the end of `Serve`. -/
+
+/-- **tee'd sessions, every history, every way the tee writer fails** (`fails i`: it fails during
+operation `i` — from some point on, once, intermittently): the connection sees the closing tag at
+most once, exactly once iff the output is marked closed (whatever `Close` reported: a failing tee
+makes it report an error although the tag is on the wire), and nothing follows it. -/
+theorem C10_tee_close_once (fails : Nat → Bool) (ops : List Tee.Op) :
+    let s := (Tee.run false fails 0 Tee.init ops).1
+    Tee.closeCount s.wire ≤ 1 ∧ s.attempts = Tee.closeCount s.wire ∧
+    (s.outClosed = true ↔ Tee.closeCount s.wire = 1) ∧ Tee.final s.wire = true := by
+  intro s
+  have h : Tee.Inv s := Tee.run_inv fails ops 0 Tee.init Tee.inv_init
+  have hf := Tee.inv_final s h
+  refine ⟨?_, h.count.symm, ?_, hf⟩
+  · rw [h.count]
+    cases hc : s.outClosed
+    · rw [h.opn hc]; omega
+    · rw [(h.cls hc).1]; omega
+  · rw [h.count]
+    constructor
+    · intro hc; exact (h.cls hc).1
+    · intro h1
+      cases hc : s.outClosed
+      · rw [h.opn hc] at h1; omega
+      · rfl
+
+/-- once the output of a tee'd session is marked closed no operation reaches the connection
+(with or without a failing tee), and transmit calls get the output-closed error -/
+theorem C10_tee_final (tf : Bool) (s : Tee.St) (op : Tee.Op) (h : s.outClosed = true) :
+    (Tee.step false tf s op).1.wire = s.wire ∧ (Tee.step false tf s op).1.attempts = s.attempts ∧
+    (op = .tx → (Tee.step false tf s op).2 = .closedOut) := by
+  cases op <;> simp [Tee.step, Tee.closeOut, h]
+  by_cases hs : s.served = true <;> simp [hs, h]
+
+/-- NOT the code (negation witness): a `teeConn.Write` that retries on the connection when the
+multi-writer reports an error puts the closing tag on the wire twice as soon as the TEE is what
+failed — `io.MultiWriter` writes to the connection first — and `Close` returns nil -/
+theorem C10_tee_fallback_writes_tag_twice :
+    (Tee.run true (fun _ => true) 0 Tee.init [.close]).1.wire = [.close, .close] ∧
+    (Tee.run true (fun _ => true) 0 Tee.init [.close]).2 = [.ok] ∧
+    Tee.final (Tee.run true (fun _ => true) 0 Tee.init [.close]).1.wire = false := by decide
+
+/-- **probe fact** (real sessions negotiated by `xmpp.NewNegotiator` with no tee / a working tee /
+a `TeeOut` writer that fails when the session is closed; `Close`, `Close` twice, `Serve`'s own
+shutdown): closing tags seen by the connection, results of the closing calls and the closed bit
+are what `Tee` computes — one tag, the tee's error reported, the second `Close` nil -/
+theorem C10_probe_tee_close : Generated.C10.teeCloseProbe = some (Tee.probeTable false) := by decide
+
+/-- the probe tells the two shapes apart: with the fallback write the failing-tee row has two tags -/
+theorem C10_probe_tee_close_fallback_differs : Tee.probeTable true ≠ Tee.probeTable false := by decide
+
+/-- non-vacuity: a tee that fails from the second operation on; the element of the failing
+transmit call is on the wire, the encoder is dead, the tag is written once -/
+example : (Tee.run false (fun i => decide (1 ≤ i)) 0 Tee.init [.tx, .tx, .tx, .close, .peerClose, .close]) =
+    (⟨true, true, true, 1, [.el, .el, .close]⟩, [.ok, .ioErr, .ioErr, .ioErr, .ok, .ok]) := by decide
+
+/-- **write deadlines, every history of transmit calls (context alive, over before the call,
+cancelled while the write is blocked) and `Close`**: with the joined watcher the connection's
+write deadline is never left in the past; hence the closing tag is written exactly once iff the
+output is marked closed — the first `Close` always gets it through — and at most once. -/
+theorem C10_write_deadline_cleared (ops : List WdHist.Op) :
+    let s := (WdHist.run true WdHist.init ops).1
+    s.wdPast = false ∧ Hist.closeCount s.wire = s.tags ∧ s.tags ≤ 1 ∧ (s.outClosed = true ↔ s.tags = 1) := by
+  intro s
+  have h : WdHist.Inv s := WdHist.run_inv ops WdHist.init WdHist.inv_init
+  refine ⟨h.wd, h.count, ?_, ?_⟩
+  · cases hc : s.outClosed
+    · rw [h.opn hc]; omega
+    · rw [h.cls hc]; omega
+  · constructor
+    · exact h.cls
+    · intro h1
+      cases hc : s.outClosed
+      · rw [h.opn hc] at h1; omega
+      · rfl
+
+/-- NOT the code (negation witness): a watcher whose "past" call is not waited for before the
+cleanup clears the deadline (`context.AfterFunc`, `stop()` returning false only says the callback
+was started).  One send with a context that was already over, and the session can never write
+its closing tag: `Close` marks the output closed, the write times out, every later `Close`
+returns nil. -/
+theorem C10_unjoined_watcher_loses_closing_tag :
+    (WdHist.run false WdHist.init [.tx .over, .close, .close]) =
+      (⟨true, false, true, 0, [.el]⟩, [.ok, .failed, .ok]) := by decide
+
+/-- **probe fact** (real session on a transport that honours the write deadline, deadline calls
+scheduled adversarially: a "past" call is held until somebody clears the deadline): for every
+entry point that takes a context and every fate of that context — result, only "past, clear"
+pairs of `SetWriteDeadline`, deadline cleared at return, one closing tag from a following `Close` —
+equal to what `WdHist` computes for the joined watcher -/
+theorem C10_probe_write_deadline : Generated.C10.writeDeadlineProbe = some (WdHist.probeTable true) := by decide
+
+theorem C10_probe_write_deadline_unjoined_differs : WdHist.probeTable false ≠ WdHist.probeTable true := by decide
+
+open ConnDl in
+/-- the two orders of the watcher's calls on the connection: "past, clear" leaves the write
+deadline cleared and the read deadline alone; "clear, past" leaves it in the past -/
+theorem C10_watcher_call_order (s : St) :
+    (watcher .write true s).wd = .zero ∧ (watcher .write true s).rd = s.rd ∧
+    (setDl .write .past (setDl .write .zero s)).wd = .past := by
+  simp [watcher, setDl]
+
+example : (WdHist.run true WdHist.init [.tx .over, .tx .cancelled, .tx .alive, .close, .close]) =
+    (⟨true, true, false, 1, [.el, .close]⟩, [.ok, .failed, .failed, .ok, .ok]) := by decide
+
+/-- **a token reader held across the end of `Serve`, every schedule** of the holder (take a
+reader, read, give it back, take another) and of `Serve`'s shutdown: if the reader tests the
+closed bit on every token, or the shutdown takes the input lock before it sets the bit (the code
+does both), no token is handed out after `Serve` has returned. -/
+theorem C10_no_token_after_serve_returned (perToken shutdownLocks : Bool)
+    (h : (perToken || shutdownLocks) = true) (acts : List RdLts.Act) :
+    (RdLts.run perToken shutdownLocks RdLts.init acts).bad = false := by
+  cases perToken
+  · cases shutdownLocks
+    · simp at h
+    · exact (RdLts.run_invL acts _ RdLts.invL_init).bad
+  · exact (RdLts.run_invP shutdownLocks acts _ RdLts.invP_init).bad
+
+/-- with the input lock taken by the shutdown (and even if the reader only cached the bit): while
+a reader is held the shutdown is never inside `closeInputStream`, and what the reader cached is
+the current value of the bit -/
+theorem C10_held_reader_cache_is_current (acts : List RdLts.Act) (c : Bool)
+    (hh : (RdLts.run false true RdLts.init acts).hpc = .holding c) :
+    c = (RdLts.run false true RdLts.init acts).bit ∧
+    (RdLts.run false true RdLts.init acts).spc ≠ .locked ∧ (RdLts.run false true RdLts.init acts).spc ≠ .marked := by
+  have h := RdLts.run_invL acts _ RdLts.invL_init
+  have hl := h.hold c hh
+  refine ⟨hl.2, ?_, ?_⟩
+  · intro hs; have := h.srv (Or.inl hs); rw [hl.1] at this; cases this
+  · intro hs; have := h.srv (Or.inr hs); rw [hl.1] at this; cases this
+
+example : (RdLts.run false true RdLts.init [.hAcquire, .sStep, .hRead]).hpc = .holding false := by decide
+
+/-- NOT the code (negation witness): the bit cached when the reader was created AND a shutdown
+that does not take the input lock — `Serve` returns while the reader is open and the reader goes
+on handing out tokens -/
+theorem C10_cached_bit_unlocked_shutdown_leaks_tokens :
+    (RdLts.run false false RdLts.init [.hAcquire, .sStep, .sStep, .sStep, .hRead]).bad = true ∧
+    (RdLts.run false false RdLts.init [.hAcquire, .sStep, .sStep, .sStep, .hRead]).spc = .done := by decide
+
+/-- non-vacuity: with per-token tests alone `Serve` does return while the reader is held, and the
+read then fails -/
+example : (RdLts.run true false RdLts.init [.hAcquire, .hRead, .sStep, .sStep, .sStep, .hRead]) =
+    ⟨true, some .h, .holding false, .done, 1, false⟩ := by decide
 
 end XmppModel.Props.C10
